@@ -39,6 +39,14 @@ def gen_attr_expr(rng, params, klass):
         if rng.random() < 0.2:
             e = ("neg", e)
         return e
+    if klass == "multilinear":
+        # product of (at least) three different parameters: every second derivative vanishes at p = 0
+        e = ("bin", "*", ("bin", "*", p[0], p[1]), p[2])
+        if len(p) > 3 and rng.random() < 0.5:
+            e = ("bin", "*", e, p[3])
+        if rng.random() < 0.4:
+            e = ("bin", "+", e, num(rng.randint(1, 9)))
+        return e
     # non-affine
     a, b = rng.choice(p), rng.choice(p)
     return rng.choice([("bin", "*", a, b), ("bin", "^", a, num(2)), ("call", "sin", [a]),
@@ -49,9 +57,14 @@ def gen_attr_expr(rng, params, klass):
 def gen_case(rng, force_affine=None):
     tags = set()
     nparam = rng.randint(1, 3)
-    params = ["p%d" % (i + 1) for i in range(nparam)]
     if force_affine is None:
         force_affine = rng.random() < 0.5
+    # a workload whose only parameter-dependent attributes are products of three or four different parameters
+    multilinear = (not force_affine) and rng.random() < 0.25
+    if multilinear:
+        nparam = rng.randint(3, 4)
+        tags.add("workload:multilinear-only")
+    params = ["p%d" % (i + 1) for i in range(nparam)]
     decls, ref = [], []       # ref: list of dicts name,list,type,dims,attrs{attr: expr}
     for pn in params:
         v = round(rng.uniform(0.5, 4), 2)
@@ -74,6 +87,8 @@ def gen_case(rng, force_affine=None):
         name = "%s%d" % ("xyuqk"[["states", "alg_states", "inputs", "parameters", "constants"].index(lst)], i)
         attrs = {}
         klasses = ["literal", "affine"] if force_affine else ["literal", "affine", "nonaffine"]
+        if multilinear:
+            klasses = ["literal", "multilinear"]
         for a in ("start", "min", "max", "nominal"):
             if rng.random() < 0.45:
                 if typ == "Boolean":
